@@ -37,7 +37,10 @@ def cells(tier):
         for b in KINDS:
             out.append({"name": "narrow-%s-%s" % (a, b), "what": "narrow", "A": a, "B": b, "n": N[tier]})
     for f in prim.FUNCTIONS:
-        out.append({"name": "prim-" + f, "what": "prim", "fn": f, "n": N_PRIM[tier]})
+        # the box functions have the deepest case trees (C12-m1 hides in one
+        # branch of _line_to_box._case_0): three times the cases
+        k = 3 if f in ("line_to_box", "line_segment_to_box", "rectangle_to_box") else 1
+        out.append({"name": "prim-" + f, "what": "prim", "fn": f, "n": k * N_PRIM[tier]})
     return out
 
 
